@@ -12,6 +12,9 @@ OWN = 'C13'
 
 
 def run(ctx: Ctx) -> None:
+    # the lifetime predicates the contracts rest on, at every boundary (spec/Ttl.tla, Oracle_Ttl.tla)
+    from props import ttloracle
+    ttloracle.run(ctx, 'C13')
     rng = random.Random(ctx.seed * 7919 + 13)
     scs = []
     for k in range(ctx.pick(60, 1000)):
